@@ -28,7 +28,7 @@ VARIABLES bpos, brun, bstat
 bvars == <<bpos, brun, bstat>>
 
 EmptyRun == [id |-> 0, scenario |-> "", pending |-> <<>>, started |-> {}, finished |-> {}, seen |-> {}, nones |-> {},
-             counts |-> {}, joined |-> FALSE, final |-> {}, fails |-> {}]
+             counts |-> {}, joined |-> FALSE, final |-> {}, fails |-> {}, allocs |-> {}]
 
 \* reservation size of a call (indices it takes from the counter), and the values it publishes
 Reserve(c) ==
@@ -85,7 +85,9 @@ RetFails(run, c, e) ==
        \cup Bad(e.res <= SumSet({<<d.seq, Reserve(d)>> : d \in {x \in StartedBefore(run, e.seq) : x.api \in Writers}}), "count_above_reservations")
        \cup Bad(\A k \in run.counts : (k[1] = c.tid /\ k[3] < c.seq) => k[2] <= e.res, "count_decreased")
   ELSE IF c.api = "snapshot" THEN
-       IF e.panicked THEN {"snapshot_panicked"}
+       \* snapshot(start) asserts start <= count: a caller that is ahead of the reservations is told so by a panic;
+       \* it must not panic once that many indices have certainly been reserved
+       IF e.panicked THEN Bad(c.start > SumSet({<<d.seq, Reserve(d)>> : d \in {x \in ReturnedBefore(run, c.seq) : x.api \in Writers}}), "snapshot_panicked")
        ELSE Bad(\A k \in 1..Len(e.items) : e.items[k][1] = c.start + k - 1, "snapshot_indices_not_contiguous")
             \cup UNION { IF ~e.items[k][2].some THEN LookupNone(run, e.items[k][1], c.seq)
                          ELSE LookupSome(run, e.items[k][1], e.items[k][2].v, e.items[k][2].cols_ok, e.seq) : k \in 1..Len(e.items) }
@@ -184,6 +186,19 @@ Step ==
              LET cnts == {k \in brun.counts : k[1] = e.tid}
                  last == IF cnts = {} THEN 0 ELSE (CHOOSE k \in cnts : \A j \in cnts : k[3] >= j[3])[2]
                  F == EndFails(brun @@ [lastcount |-> last], e) IN
+             /\ Report(brun, F, e)
+             /\ brun' = brun
+             /\ bstat' = [bstat EXCEPT !.events = @ + 1, !.fails = @ + Cardinality(F)]
+        ELSE IF e.site = "abort" THEN
+             /\ Report(brun, {"library_crashed"}, e)
+             /\ brun' = brun
+             /\ bstat' = [bstat EXCEPT !.events = @ + 1, !.fails = @ + 1]
+        ELSE IF e.site = "bucket.alloc" THEN
+             /\ brun' = [brun EXCEPT !.allocs = @ \cup {<<e.base, e.len>>}]
+             /\ bstat' = [bstat EXCEPT !.events = @ + 1]
+        ELSE IF e.site = "atomic" /\ e.loc = "bucket" /\ e.op \in {"cas", "store", "swap"} /\ e.ok THEN
+             \* a bucket pointer is installed: bucket b must get an allocation of exactly 32 * 2^b entries
+             LET F == Bad(\A a \in brun.allocs : a[1] = e.arg => a[2] = 32 * (2 ^ e.b), "bucket_installed_with_wrong_length") IN
              /\ Report(brun, F, e)
              /\ brun' = brun
              /\ bstat' = [bstat EXCEPT !.events = @ + 1, !.fails = @ + Cardinality(F)]
